@@ -366,8 +366,9 @@ def write_evidence(ctx, nviol):
         "wall_s": round(time.time() - ctx.t0, 2),
         "violations": nviol,
     }
-    os.makedirs(os.path.join(VERIF, "evidence"), exist_ok=True)
-    path = os.path.join(VERIF, "evidence", ctx.prop + ".json")
+    evdir = os.environ.get("VERIF_EVIDENCE_DIR") or os.path.join(VERIF, "evidence")
+    os.makedirs(evdir, exist_ok=True)
+    path = os.path.join(evdir, ctx.prop + ".json")
     tmp = path + ".tmp%d" % os.getpid()
     with open(tmp, "w") as f:
         json.dump(ev, f, indent=1, sort_keys=True, default=_jsonable)
@@ -403,7 +404,7 @@ def finish(ctx) -> int:
                 print("KNOWN-FINDING: property=%s %s [%s]" % (ctx.prop, e.get("what", key), ident))
             continue
         unmatched += 1
-        d = os.path.join(VERIF, "replays", ctx.prop)
+        d = os.path.join(os.environ.get("VERIF_REPLAY_DIR") or os.path.join(VERIF, "replays"), ctx.prop)
         os.makedirs(d, exist_ok=True)
         path = os.path.join(d, _slug(key) + ".json")
         with open(path, "w") as f:
